@@ -23,6 +23,8 @@ pub struct Seq {
     pub check_stats_every_step: bool,
     pub settle_each_step: bool,
     pub unexpected_status: Vec<Found>,
+    /// The first divergence between model and server has been reported already.
+    flushed_findings: bool,
 }
 
 pub const OKC: i32 = 0;
@@ -40,6 +42,7 @@ impl Seq {
             check_stats_every_step: true,
             settle_each_step: true,
             unexpected_status: Vec::new(),
+            flushed_findings: false,
         }
     }
 
@@ -389,7 +392,8 @@ impl Seq {
         let n = all.len() as u64;
         if let Some(first) = all.first().cloned() {
             let mut kept = 0;
-            if rep.violations.is_empty() {
+            if !self.flushed_findings {
+                self.flushed_findings = true;
                 // everything the first divergent event showed (one response can break two properties)
                 for f in all.into_iter().filter(|f| f.group == first.group && (f.group != 0 || f.sig == first.sig)) {
                     rep.viol(f.property, f.sig, f.detail);
